@@ -292,8 +292,20 @@ func (c13) Run(t *testing.T, tape *core.Tape, rcx *RunCtx) *core.Result {
 		path = filepath.Join(rcx.TmpDir, fmt.Sprintf("c13-%d.fasta", rcx.Index))
 		if entry == 2 || entry == 4 {
 			if useBuild {
+				if tape.Chance(40) {
+					// history: the path already holds an earlier, longer file written by the
+					// library itself; writing the new list must replace it completely
+					old := make([]fasta.Fasta, len(recs)+1+tape.Draw(3))
+					for i := range old {
+						old[i] = fasta.Fasta{Name: "previous " + c13Name(tape), Sequence: c13Seq(tape, false) + "ACGT"}
+					}
+					fasta.Write(old, path)
+					sc.Writer = "fasta.Write over an existing longer file"
+					res.Count("probe_write_over_existing_file", 1)
+				} else {
+					sc.Writer = "fasta.Write"
+				}
 				fasta.Write(recs, path) // the library's own writer
-				sc.Writer = "fasta.Write"
 			} else {
 				os.WriteFile(path, payload, 0o644)
 			}
